@@ -354,9 +354,17 @@ impl Module for M {
                         if k > 40_000_000 { over = true; break; }
                     }
                     n += k;
+                    let kp = k;
                     let moved = s.translate(Point::new(3, -2));
                     let _ = moved.bounding_box();
                     alloc_arm(false);
+                    // the iterators as iterators (size_hint, nth, fold, count, last, skip, step_by; fresh, after some next(),
+                    // exhausted): no panic, and the same items as next() (round-5 seed C08-r5-2: an exact size_hint that
+                    // underflows once no row is left); small shapes only
+                    if kp <= 200 {
+                        iter_protocol_check(ctx, "C08:iterator-protocol:points", p.points(), 200);
+                        iter_protocol_check(ctx, "C08:iterator-protocol:pixels", s.pixels(), 600);
+                    }
                     probes = [pb.top_left, pb.center(), bb.top_left, bb.center(), pb.top_left + pb.size, Point::new(0, 0)];
                     (n, over)
                 });
